@@ -124,7 +124,7 @@ func (c *Client) Resume() {
 
 // NewClient opens a connection to node (no CONNECT sent yet).
 func (w *World) NewClient(name string, node int, policy AckPolicy) *Client {
-	cEnd, rawEnd := net.Pipe()
+	cEnd, rawEnd := memPipe()
 	sEnd := &faultyConn{Conn: rawEnd, w: w}
 	c := &Client{srv: sEnd, Name: name, w: w, Node: w.Node(node), conn: cEnd, enc: encoder.New(), Policy: policy, resume: make(chan struct{}, 1)}
 	w.Clients = append(w.Clients, c)
